@@ -58,7 +58,20 @@ CaseTags(ev) ==
     ELSE IF res.kind = "plural" THEN PluralTags(ev, res)
     ELSE PlainTags(ev, [members |-> ms, baseIsKey |-> a.baseIsKey])
 
+\* L2: run-time selection by generated code.  key "k": six cardinal forms, "o": six ordinal forms, "m": cardinal one / other only,
+\* "tp" / "tpo": td_plural! / td_plural_ordinal! with arms one and _.
+RenderTags(ev) ==
+    LET ty == IF ev.key \in {"o", "tpo"} THEN "ordinal" ELSE "cardinal"
+        cat == Oracle.cats[ev.locale][ty][ev.tok]
+        want == CASE ev.key = "k" -> FormText(M(cat, "cardinal"))
+                  [] ev.key = "o" -> FormText(M(cat, "ordinal"))
+                  [] ev.key = "m" -> FormText(M(FormFor({"one", "other"}, cat), "cardinal"))
+                  [] OTHER -> FormSym[FormFor({"one", "other"}, cat)] IN
+    IF ev.outcome # "Ok" THEN {"render-outcome:" \o ev.outcome}
+    ELSE IF ev.out = want THEN {} ELSE {"run-time-form:" \o ev.key \o ":" \o ev.locale}
+
 Tags(ev) == IF ev.ev = "Load" THEN CaseTags(ev)
+            ELSE IF ev.ev = "Render" THEN RenderTags(ev)
             ELSE IF ev.ev = "Crash" THEN {"crash:" \o ev.outcome}
             ELSE {}
 
